@@ -41,7 +41,9 @@ def run(chk):
         C, D = mu.shape
         g = gen.nprng(r)
         a = g.choice([-1.0, 1.0], size=D) * 10.0 ** g.uniform(-3, 3, size=D)      # negative and widely different magnitudes
-        b = g.normal(size=D) * 10.0 ** g.uniform(-1, 2, size=D)
+        # shifts up to 100 standard deviations of the rescaled feature (a shift that dwarfs the spread by more makes the
+        # TRANSFORMED problem ill-conditioned in binary64: sum x^2/n - mean^2 cancels; that is rounding, not equivariance)
+        b = g.normal(size=D) * np.abs(a) * s * 10.0 ** g.uniform(-1, 2, size=D)
         Xt = a * X + b
         ctx = {"a": hexlist(a), "b": hexlist(b), "X": hexlist(X), "w": hexlist(w), "mu": hexlist(mu), "var": hexlist(var), "shape": [C, D]}
         thr = 1e-6 * s ** 2                     # per-feature floors; they transform like variances (a^2)
@@ -99,7 +101,9 @@ def run(chk):
             chk.fail("linear scores change under feature rescaling", ctx)
         # ---- ISV / JFA: factors and scores invariant, client mean follows the features
         if i % 3 == 0:
-            ubm, ubmt = make_gmm(w, mu, var), make_gmm(w, a * mu + b, a * a * var)
+            # a well-conditioned (unit-scale) UBM for the factor-analysis part; the transformed side carries the scales
+            ubm, _su = fa.gen_ubm(r, C=C, D=D)
+            ubmt = make_gmm(np.asarray(ubm.weights), a * np.asarray(ubm.means) + b, a * a * np.asarray(ubm.variances))
             stats = fa.gen_stats(r, ubm, 3, frac=False)
             statst = [tr_stats(q, a, b) for q in stats]
             A = np.tile(a, C)
@@ -143,13 +147,17 @@ def run(chk):
         Dk = Xk.shape[1]
         if kt.margin_ok(init, Xk, rel=1e-4):
             Q, _ = np.linalg.qr(gen.nprng(r).normal(size=(Dk, Dk)))
-            sc, t = 10.0 ** r.uniform(-2, 2), gen.nprng(r).normal(size=Dk) * 10
+            big = r.choice([0.0, 1e4, 1e8])
+            # with a huge common offset the transformed INPUT is itself rounded at 1e-8 absolute: keep the spread >= 1 and loosen the tolerance
+            sc = 10.0 ** (r.uniform(0, 2) if big else r.uniform(-2, 2))
+            t = gen.nprng(r).normal(size=Dk) * 10 + big
+            ktol = 1e-5 if big else 1e-7
             f = lambda Z: sc * (Z @ Q.T) + t
             k1, n1, _ = kt.run_kfit(init, Xk, None, cap=3)
             k2, n2, _ = kt.run_kfit(f(init), f(Xk), None, cap=3)
             chk.count(1, key=("kmeans",))
-            if not (close(k2.centroids_, f(np.asarray(k1.centroids_)), rtol=1e-7) and n1 == n2
-                    and close(k2.average_min_distance, sc * sc * k1.average_min_distance, rtol=1e-7)
+            if not (close(k2.centroids_, f(np.asarray(k1.centroids_)), rtol=ktol) and n1 == n2
+                    and close(k2.average_min_distance, sc * sc * k1.average_min_distance, rtol=ktol, atol=ktol)
                     and np.array_equal(k2.predict(f(Xk)), k1.predict(Xk))):
                 chk.fail("k-means centroids do not follow a rotation + uniform scaling + translation of the data", {"X": hexlist(Xk), "init": hexlist(init), "scale": sc})
         if i < 2:
